@@ -99,6 +99,30 @@ def search(ctx):
                          "impl=%#x oracle=%#x" % (crc(data), oracle(data)))
                 if len(ctx.fails) > 5:
                     return
+    # ways of calling: start value by keyword, data as bytearray / memoryview, a CRC continued from a partial result
+    for _ in range(ctx.budget(300, 5000)):
+        ln = ctx.rng.choice([0, 1, 2, 3, 4, 8, 9, 16, 26, ctx.rng.randrange(0, 80)])
+        data = bytes(ctx.rng.choice([0, 0, ctx.rng.randrange(256), ctx.rng.randrange(256)]) for _ in range(ln))
+        start = ctx.rng.choice([0xFFFF, 0, 0x1234, ctx.rng.randrange(65536)])
+        k = ctx.rng.randrange(ln + 1)
+        want = oracle(data, start)
+        styles = (("start_value by keyword", lambda: crc(data, start_value=start)),
+                  ("bytearray", lambda: crc(bytearray(data), start)),
+                  ("memoryview", lambda: crc(memoryview(data), start)),
+                  ("continued at %d" % k, lambda: crc(data[k:], crc(data[:k], start))),
+                  ("continued at %d, keyword" % k, lambda: crc(data[k:], start_value=crc(data[:k], start_value=start))))
+        for nm, f in styles:
+            ctx.case(("style", nm.split(" at")[0], data, start))
+            try:
+                got = f()
+            except Exception as e:   # noqa
+                got = "raised %s" % type(e).__name__
+            if got != want:
+                ctx.fail("crc-differs-from-bitserial", {"data": data, "start": start, "call": nm},
+                         "called with %s: impl=%s oracle=%#x" % (nm, got if isinstance(got, str) else hex(got), want))
+                break
+        if len(ctx.fails) > 5:
+            return
     # long samples
     for _ in range(ctx.budget(50, 2000)):
         ln = ctx.rng.choice([100, 1000, 4096, ctx.rng.randrange(3, 5000)])
